@@ -260,6 +260,9 @@ def build_tasks(tier, seed):
     tasks.append((('mink',), 8, False, (16, 32), seed))
     tasks.append((('mink',), 8, True, (16, 32), seed))
     tasks.append((('schw',), 4, True, (16, 32), seed))
+    # de Sitter: no matter (vacuum option on) but Lambda != 0; conformally
+    # flat, so the Weyl tensor vanishes in both constructions
+    tasks.append((('ds',), 4, True, (14, 20), seed))
     return tasks
 
 
